@@ -7,6 +7,8 @@ CONSTANTS
   Consumed = 2
   SingleLE = FALSE
   MaxUnits = 3
+  FillMode = FALSE
+  SmallSet <- NoSizes
   LaterBatch = TRUE
   SizeSet <- SizesAll265
 INVARIANT SizeOK
